@@ -50,6 +50,19 @@ pub uninterp spec fn f_of_i128(a: i128) -> f64;
 #[verifier::external_body] fn f64_of_i16(a: i16) -> (r: f64) ensures r == f_of_i16(a) { a as f64 }
 #[verifier::external_body] fn f64_of_f32(a: f32) -> (r: f64) ensures r == f_of_f32(a) { a as f64 }
 #[verifier::external_body] fn f64_of_i128(a: i128) -> (r: f64) ensures r == f_of_i128(a) { a as f64 }
+// `<integer> as f64` where the integer type is not fixed by the text (i64 counters; usize when a count comes from the bitmap)
+pub trait AsF64: Sized {
+    spec fn f_val(self) -> f64;
+    fn conv(self) -> (r: f64) ensures r == self.f_val();
+}
+impl AsF64 for i64 {
+    open spec fn f_val(self) -> f64 { f_of_i64(self) }
+    #[verifier::external_body] fn conv(self) -> (r: f64) { self as f64 }
+}
+impl AsF64 for usize {
+    open spec fn f_val(self) -> f64 { f_of_i64(self as i64) }
+    #[verifier::external_body] fn conv(self) -> (r: f64) { self as f64 }
+}
 
 // `bitmap.get(i).copied().unwrap_or(false)`
 #[verifier::external_body]
@@ -887,7 +900,8 @@ ITEMS = {
                   ('re', r'let mut sum = 0\.0;', 'let mut sum = fzero();', 1),
                   ('re', r'let mut count = 0;', 'let mut count = 0i64;', 2),
                   ('refn', r'SqlValue::(\w+)\(v\) => sum \+= ([^,]+),', _sum_arm_owned, 6),
-                  ('re', r'sum / count as f64', 'fdiv(sum, f64_of_i64(count))', 1)],
+                  ('re', r'bitmap\.iter\(\)\.filter\(\|&&pass\| pass\)\.count\(\)', 'count_true(bitmap)', None),
+                  ('re', r'sum / count as f64', 'fdiv(sum, count.conv())', 1)],
         loops={0: _EX_INV + """
                 op == AggregateOp::Sum,
                 count == n_elive(rows@, *expr, filter_bitmap, schema, en__ as int),
@@ -1044,7 +1058,7 @@ TRUSTED = [
     'external_body SqlValue::clone: Clone is a copy',
     'external_body fmt_msg: format!(..) / "..".to_string() building an error message',
     'external_body Row::get: Vec::get (std slice::get: Some(&v[i]) iff i < len)',
-    'external_body fzero / fadd / fdiv / f64_of_i64 / f64_of_i16 / f64_of_f32 / f64_of_i128: machine floating point is UNINTERPRETED (f_add, f_div, f_of_*): sums and averages are stated as the fold of the machine operations in row order, not as real-number arithmetic',
+    'external_body fzero / fadd / fdiv / f64_of_i64 / f64_of_i16 / f64_of_f32 / f64_of_i128 / AsF64::conv (`<i64 or usize> as f64`): machine floating point is UNINTERPRETED (f_add, f_div, f_of_*): sums and averages are stated as the fold of the machine operations in row order, not as real-number arithmetic',
     'external_body bm_get: bitmap.get(i).copied().unwrap_or(false); count_true: bitmap.iter().filter(|&&p| p).count() (iterator adapters are outside the Verus subset)',
     'precondition bm_ok: a filter bitmap has one entry per row (create_filter_bitmap(rows.len(), ..), not under contract); precondition rows.len() < i64::MAX (a Vec<Row> cannot be longer)',
     'external_body simd_sum_i64 / simd_min_i64 / simd_max_i64: the integer kernels BY THEIR CONTRACTS (exact sum; None iff empty else minimum / maximum), which unit A-simd proves on the real kernels',
